@@ -267,6 +267,7 @@ func (ex *Explorer) runPath(s *Solver, it WorkItem) {
 						}
 					}()
 					msg := panicMessage(in, r)
+					p.panicStack = r.stack
 					p.PathViolation("uncaught panic: " + msg)
 				}()
 			default:
